@@ -177,21 +177,42 @@ func ruleR08_3(w *World, r *Report) {
 func ruleR08_4(w *World, r *Report) {
 	u := w.Server()
 	r.Rule("R08.4", "the function that persists a push (operation insert and datatype-document update) runs both writes inside the repository's transaction wrapper, or inserts the operations idempotently (upsert), so that retrying the same sync after a crash between the writes succeeds", 1)
-	v := newCGView(u, w.Thorough)
-	var commit *ssa.Function
-	for _, fn := range u.ordaFuncs(func(p string) bool { return p == pService }) {
-		if len(callsNamed(fn, "InsertOperations")) > 0 && len(callsNamed(fn, "UpdateDatatype")) > 0 {
-			commit = fn
-		}
-	}
-	if commit == nil {
-		r.Lost("the function that calls both InsertOperations and UpdateDatatype")
+	proc := u.Fn(pService, "PushPullHandler", "process")
+	if proc == nil {
+		r.Lost("PushPullHandler.process")
 		return
 	}
-	inTx := len(callsNamed(commit, "doTransaction", "DoTransaction", "WithTransaction")) > 0
-	for _, c := range v.callers(commit) {
-		if c.Parent().Name() == "doTransaction" {
-			inTx = true
+	d := deepOf(proc)
+	insC, updC := d.calls("InsertOperations"), d.calls("UpdateDatatype")
+	if len(insC) == 0 || len(updC) == 0 {
+		r.Lost("the push commit: InsertOperations and UpdateDatatype below process")
+		return
+	}
+	// both writes inside one function that the repository's transaction wrapper runs
+	inTx := false
+	for a := insC[0].n; a != nil; a = a.parent {
+		for b := updC[0].n; b != nil; b = b.parent {
+			if a != b {
+				continue
+			}
+			for x := a; x != nil; x = x.parent {
+				n := x.fn.Name()
+				if x.fn.Parent() != nil {
+					// closure handed to the wrapper
+					for _, c := range callsIn(x.fn.Parent()) {
+						if has([]string{"doTransaction", "DoTransaction", "WithTransaction"}, calleeName(c)) {
+							for _, arg := range c.Common().Args {
+								if mc, ok := arg.(*ssa.MakeClosure); ok && mc.Fn == ssa.Value(x.fn) {
+									inTx = true
+								}
+							}
+						}
+					}
+				}
+				if n == "doTransaction" || n == "WithTransaction" {
+					inTx = true
+				}
+			}
 		}
 	}
 	upsert := false
@@ -203,7 +224,7 @@ func ruleR08_4(w *World, r *Report) {
 			}
 		}
 	}
-	r.Check(inTx || upsert, fnName(commit)+"/atomic-or-idempotent", u.Pos(commit.Pos()), "transactional or idempotent",
+	r.Check(inTx || upsert, "push commit/atomic-or-idempotent", d.pos(u, insC[0]), "transactional or idempotent",
 		"the operation insert and the datatype-document update are two separate writes, neither inside doTransaction nor idempotent: a crash between them leaves stored but unacknowledged operations, and the retry computes the same duid:sseq keys and fails on the duplicate _id for ever")
 }
 
@@ -369,56 +390,52 @@ func ruleR16_2(w *World, r *Report) {
 		r.Lost("PushPullHandler.process")
 		return
 	}
-	v := newCGView(u, false)
-	var initCall ssa.CallInstruction
-	for _, c := range callsIn(proc) {
-		if f := staticCallee(c); f != nil {
-			e := closureEffects(v, []*ssa.Function{f})
-			if e.Writes["PushPullHandler.retCh"] && e.Writes["PushPullHandler.resPushPullPack"] && f.Name() != "finalize" {
-				initCall = c
-				break
-			}
-		}
-	}
-	if initCall == nil {
-		r.Bad("PushPullHandler.process/initialise first", u.Pos(proc.Pos()), "no call of the handler goroutine assigns both the reply channel and the response pack")
+	d := deepOfDepth(proc, 1)
+	rcs, rps := d.stores("$0.retCh"), d.stores("$0.resPushPullPack")
+	if len(rcs) != 1 || len(rps) == 0 {
+		r.Bad("PushPullHandler.process/initialise first", u.Pos(proc.Pos()), fmt.Sprintf("the handler goroutine assigns the reply channel %d time(s) and the response pack %d time(s); expected one assignment of each at its start", len(rcs), len(rps)))
 		return
 	}
+	rc, rp := rcs[0], rps[0]
+	prc, prp := lift(rc, d.root), lift(rp, d.root)
 	bad := ""
 	for _, c := range callsIn(proc) {
 		n := calleeName(c)
-		if c == initCall || n == "TryLock" || n == "finalize" {
+		in := c.(ssa.Instruction)
+		if in == prc || n == "TryLock" || n == "finalize" {
 			continue
 		}
-		if !instrDominates(initCall.(ssa.Instruction), c.(ssa.Instruction)) {
-			bad = n
+		if !instrDominates(prc, in) {
+			bad = n + " (before the reply channel is assigned)"
+		}
+		if f := staticCallee(c); in != prp && f != nil && f.Pkg != nil && f.Pkg.Pkg.Path() == pService && !instrDominates(prp, in) {
+			bad = n + " (before the response pack is created)"
 		}
 	}
 	forEachInstr(proc, func(in ssa.Instruction) {
-		if ret, ok := in.(*ssa.Return); ok && !instrDominates(initCall.(ssa.Instruction), ret) && ret.Block().Comment != "recover" {
+		if ret, ok := in.(*ssa.Return); ok && ret.Block().Comment != "recover" && !(instrDominates(prc, ret) && instrDominates(prp, ret)) {
 			bad = "a return"
 		}
 	})
-	r.Check(bad == "", "PushPullHandler.process/initialise first", u.Pos(initCall.Pos()), calleeName(initCall)+" dominates every other step and every return",
-		bad+" can be reached before "+calleeName(initCall)+" has assigned the reply channel and the response pack: the exit function would dereference nil")
-	// inside the initialiser: the channel is stored before any call
-	f := staticCallee(initCall)
-	var chStore *ssa.Store
-	for _, st := range storesTo(f, ".retCh") {
-		chStore = st
-	}
-	if chStore == nil {
-		r.Bad(fnName(f)+"/channel first", u.Pos(f.Pos()), "the initialiser does not store the reply channel itself")
-		return
-	}
+	r.Check(bad == "", "PushPullHandler.process/initialise first", d.pos(u, rc), "the assignment of reply channel and response pack dominates every other step and every return",
+		bad+" can be reached before the reply channel and the response pack are assigned: the exit function would dereference nil")
+	// the channel is stored before any call of the function that stores it (except taking the lock
+	// and deferring the exit function)
 	first := ""
-	for _, c := range callsIn(f) {
-		if !instrDominates(chStore, c.(ssa.Instruction)) {
-			first = calleeName(c)
+	for _, c := range callsIn(rc.n.fn) {
+		n := calleeName(c)
+		if rc.n == d.root && (n == "TryLock" || n == "finalize") {
+			continue
+		}
+		if !instrDominates(rc.in, c.(ssa.Instruction)) {
+			first = n
 			break
 		}
 	}
-	r.Check(first == "", fnName(f)+"/channel first", u.Pos(chStore.Pos()), "the reply channel is stored before any call", "the call "+first+" can panic before the reply channel is stored: the exit function would then send on a nil channel and block for ever")
+	if rc.n != d.root && !alwaysRuns(rc.in) {
+		first = "an early return"
+	}
+	r.Check(first == "", "PushPullHandler.process/channel first", d.pos(u, rc), "the reply channel is stored before any call", first+" can happen before the reply channel is stored: the exit function would then send on a nil channel and block for ever")
 }
 
 // R16.4 an error is never reported as success
